@@ -204,6 +204,8 @@ def user_level_terms(spec, geo):
                 ops = [(o, list(dx), u) for o, dx, u in c['ops']]
             dxs = [o[1] for o in ops]
             shape = geo.coupling_shape(dxs)
+            if any(x <= 0 for x in shape):
+                continue        # does not fit into the lattice at all
             arr = tile_to(s, shape)
             reach = max(abs(d[0]) for d in dxs)
             for x in geo.cells(reach):
@@ -383,6 +385,30 @@ def dense_from_containers(info, dense):
         H = H + H.conj().T
         onsite = {k: m + m.conj().T for k, m in onsite.items()}
     return H, onsite
+
+
+def is_onsite_only(H, dims, tol):
+    """is H a sum of single-site operators (plus a constant)?"""
+    n = len(dims)
+    D = int(np.prod(dims))
+    T = H.reshape(list(dims) + list(dims))
+    c = np.trace(H) / D
+    tot = c * np.eye(D, dtype=complex)
+    for k in range(n):
+        rest = [q for q in range(n) if q != k]
+        hk = T
+        # partial trace over all sites but k
+        idx_in = list(range(n))
+        idx_out = [n + q if q == k else q for q in range(n)]
+        hk = np.einsum(T, idx_in + idx_out, [k, n + k]) / (D / dims[k])
+        hk = hk - c * np.eye(dims[k])
+        mats = [np.eye(d) for d in dims]
+        mats[k] = hk
+        m = np.eye(1)
+        for x in mats:
+            m = np.kron(m, x)
+        tot = tot + m
+    return float(np.max(np.abs(tot - H))) <= tol
 
 
 def undo_sort(H, perms, dims):
